@@ -581,6 +581,17 @@ func (s *IndexedState) SearchForIDs(ctx *Context, pattern Map) ([]string, error)
 	Log(DEBUG, ctx, "IndexedState.SearchForIDs", "location", s.Name, "pattern", pattern)
 	terms := ExtractTerms(ctx, pattern)
 
+	if len(terms) == 0 {
+		// The pattern has nothing to look up in the term index
+		// (it is empty or consists of variables only), so every
+		// fact is a candidate, as in LinearState.
+		ids := make([]string, 0, len(s.IdToFact))
+		for id := range s.IdToFact {
+			ids = append(ids, id)
+		}
+		return ids, nil
+	}
+
 	ids, err := s.FactIndex.Search(ctx, terms)
 
 	return ids, err
